@@ -198,6 +198,73 @@ func verif_C15_marginals(m, n, zmask int) {
 	}
 }
 
+// posterior of a sequence of state sets: P(x_k in S_k for all k | y) equals
+// the mass of the hidden paths inside the product of the sets over the
+// likelihood. sets: one base-4 digit per position, bit i = state i is allowed.
+// uniform 1: initial and transition probabilities are the constant 1/m and only
+// the emissions are symbolic (the identity is then multilinear in them, which
+// the nonlinear solver decides for n = 4; fully symbolic models time out there)
+func verif_C15_posterior(m, n, sets, uniform int) {
+	sm, nd := stateMapOf(m, 0)
+	var h *generic.Hmm
+	var err error
+	if uniform == 1 {
+		pi := NullDenseVector(Float64Type, m)
+		tr := NullDenseMatrix(Float64Type, m, m)
+		for i := 0; i < m; i++ {
+			pi.At(i).SetFloat64(math.Log(1 / float64(m)))
+			for j := 0; j < m; j++ {
+				tr.At(i, j).SetFloat64(math.Log(1 / float64(m)))
+			}
+		}
+		p, e1 := generic.NewHmmProbabilityVector(pi, true)
+		t, e2 := generic.NewHmmTransitionMatrix(tr, true)
+		if e1 != nil || e2 != nil {
+			return
+		}
+		h, err = generic.NewHmm(p, t, sm)
+	} else {
+		h, err = symHmm(m, 0, sm)
+	}
+	if err != nil || h == nil {
+		return
+	}
+	rec := symRecord{symEmissions(nd, n), n}
+	states := make([][]int, n)
+	allowed := make([]int, n)
+	for k := 0; k < n; k++ {
+		allowed[k] = (sets >> uint(2*k)) & 3
+		for i := 0; i < m; i++ {
+			if (allowed[k]>>uint(i))&1 == 1 {
+				states[k] = append(states[k], i)
+			}
+		}
+	}
+	r := NewFloat64(0)
+	if h.Posterior(r, rec, states) != nil {
+		return
+	}
+	VerifReach("posterior")
+	total, inside := 0.0, 0.0
+	enumerate(m, n, func(s []int) {
+		p, ok := pathProb(h, rec, s)
+		if !ok {
+			return
+		}
+		total += p
+		in := true
+		for k := range s {
+			if (allowed[k]>>uint(s[k]))&1 == 0 {
+				in = false
+			}
+		}
+		if in {
+			inside += p
+		}
+	})
+	VerifAssertEqF("posterior*likelihood=mass-inside-the-sets", math.Exp(r.GetFloat64())*total, inside)
+}
+
 // log of the joint probability of a hidden path (false: probability zero)
 func pathLogProb(h *generic.Hmm, rec symRecord, s []int) (float64, bool) {
 	lp := h.Pi.Float64At(s[0]) + rec.e[h.StateMap[s[0]]][0]
@@ -254,6 +321,7 @@ func verif_C15_viterbi(m, n, zmask, final int) {
 }
 
 func init() {
+	VerifRegister("verif_C15_posterior", func(a []int) { verif_C15_posterior(a[0], a[1], a[2], a[3]) })
 	VerifRegister("verif_C15_viterbi", func(a []int) { verif_C15_viterbi(a[0], a[1], a[2], a[3]) })
 	VerifRegister("verif_C15_logpdf", func(a []int) { verif_C15_logpdf(a[0], a[1], a[2], a[3], a[4]) })
 	VerifRegister("verif_C15_marginals", func(a []int) { verif_C15_marginals(a[0], a[1], a[2]) })
